@@ -105,8 +105,11 @@ def description(d):
     if d['src'] == 'chain':
         return RepetitionCodeDescription.from_chain(length=d['length'], qubit_refocusing=d.get('refocus', True))
     layout = getattr(rcc, d['name'])()
+    kw = {}
+    if d.get('index_map') is not None:          # an explicit qubit -> circuit-channel map (hardware channel numbers, in any order)
+        kw['qubit_index_map'] = {QubitIDObj(x): int(i) for x, i in zip(d['involved'], d['index_map'])}
     return RepetitionCodeDescription.from_connectivity(involved_qubit_ids=[QubitIDObj(x) for x in d['involved']], connectivity=layout,
-                                                       qubit_refocusing=d.get('refocus', True))
+                                                       qubit_refocusing=d.get('refocus', True), **kw)
 
 
 def build(case):
